@@ -210,6 +210,28 @@ pub assume_specification [std::string::FromUtf8Error::into_bytes] (e: std::strin
 pub assume_specification [std::string::String::into_bytes] (s: String) -> (r: Vec<u8>)
     ensures r@ == bytes_of(&s);
 
+// generated new_unchecked of the URI component types (transmute of the slice). TRUSTED: they keep the text.
+pub assume_specification [crate::uri::Authority::new_unchecked] (b: &[u8]) -> (r: &crate::uri::Authority)
+    ensures bytes_of(r) == b@;
+pub assume_specification [crate::uri::Path::new_unchecked] (b: &[u8]) -> (r: &crate::uri::Path)
+    ensures bytes_of(r) == b@;
+pub assume_specification [crate::uri::Query::new_unchecked] (b: &[u8]) -> (r: &crate::uri::Query)
+    ensures bytes_of(r) == b@;
+pub assume_specification [crate::uri::Fragment::new_unchecked] (b: &[u8]) -> (r: &crate::uri::Fragment)
+    ensures bytes_of(r) == b@;
+pub assume_specification [crate::uri::UserInfo::new_unchecked] (b: &[u8]) -> (r: &crate::uri::UserInfo)
+    ensures bytes_of(r) == b@;
+pub assume_specification [crate::uri::Host::new_unchecked] (b: &[u8]) -> (r: &crate::uri::Host)
+    ensures bytes_of(r) == b@;
+pub assume_specification [crate::uri::Authority::as_bytes] (s: &crate::uri::Authority) -> (r: &[u8])
+    ensures r@ == bytes_of(s);
+#[verifier::external_type_specification]
+pub struct ExUriRefParts<'a>(crate::uri::UriRefParts<'a>);
+#[verifier::external_type_specification]
+pub struct ExUriParts<'a>(crate::uri::UriParts<'a>);
+#[verifier::external_type_specification]
+pub struct ExUriAuthorityParts<'a>(crate::uri::AuthorityParts<'a>);
+
 // std: unchecked UTF-8 reinterpretation. TRUSTED (std documentation: the bytes must be valid UTF-8)
 pub assume_specification [std::str::from_utf8_unchecked] (b: &[u8]) -> (r: &str)
     requires utf8_ok(b@),
